@@ -1,10 +1,12 @@
 #!/venv/bin/python
-"""Self-test of the method-body translator (tools/mextract.py via extract_m{flat,polygon,polyhedron,calc}.py) and of
-G3D/Proofs/MethodsTie{Flat,Polygon,Polyhedron,Calc}.lean: small mutations of the class methods on a COPY of the library.
-For every mutation the table says which generated files change, the exit status of the extractors, and which tie modules
-(and which theorems in them) stop building.  A behaviour-changing mutation must change exactly the generated file of the
-group of the mutated class and break exactly the tie module of that group; semantics-preserving edits (and edits that are
-equivalent under the exact reading of the tolerance) must leave everything green.
+"""Self-test of the method-body translator (tools/mextract.py via extract_m{flat,polygon,polyhedron,calc}.py) and of the ROLE
+modules G3D/Proofs/MethodsTie<Group>{Ctor,Member,Eq,Move,Effects,Complete,..}.lean: small mutations of the class methods on a COPY
+of the library.  For every mutation the table says which generated files change, the exit status of the extractors, which role
+modules stop building (`failed`: own errors; `blocked`: only because an imported role module failed — the real call couplings)
+and which theorems fail.  A behaviour-changing mutation must change exactly the generated file of the group of the mutated
+class and break exactly the role module(s) of the changed method (+ `..Effects` when stored references change, `..Complete`
+when the method cannot be translated); semantics-preserving edits (and edits that are equivalent under the exact reading of
+the tolerance) must leave everything green.
 usage: selftest_methods.py [ids..]   (writes only to /tmp/vm_repo and lean/G3D/Extracted/M*.lean, which are regenerated from
 the working tree of ${G3D_SRC:-/repo} at the end; /tmp/vm_repo is deleted)"""
 import subprocess, shutil, os, sys, re, json
@@ -20,7 +22,24 @@ shutil.copytree(SRC, DST)
 L = 'geometry/line.py'; P = 'geometry/plane.py'; S = 'geometry/segment.py'; H = 'geometry/halfline.py'
 G = 'geometry/polygon.py'; B = 'geometry/polyhedron.py'; Y = 'geometry/pyramid.py'; A = 'calc/angle.py'
 GROUPS = ['mflat', 'mpolygon', 'mpolyhedron', 'mcalc']
-MODULE = {'mflat': 'MethodsTieFlat', 'mpolygon': 'MethodsTiePolygon', 'mpolyhedron': 'MethodsTiePolyhedron', 'mcalc': 'MethodsTieCalc'}
+PROOFS = os.path.join(VERIF, 'lean', 'G3D', 'Proofs')
+ROLE_MODULES = sorted(f[:-5] for f in os.listdir(PROOFS) if re.match(r'MethodsTie(Flat|Polygon|Polyhedron)[A-Z]\w*\.lean$|MethodsTieCalc\.lean$', f)
+                      and not f.endswith('Shared.lean'))
+IMPORTS = {m: set(re.findall(r'^import G3D\.Proofs\.(MethodsTie\w+)', open(os.path.join(PROOFS, m + '.lean')).read(), re.M)) for m in ROLE_MODULES}
+X = lambda *names: sorted('MethodsTie' + n for n in names)
+# expected broken role modules (failed + blocked) per mutation
+EXPECT = {
+ 'M0': X(), 'M1': X('FlatMove', 'FlatEffects'), 'M2': X('FlatMove', 'FlatEffects'), 'M3': X('FlatMember'), 'M4': X(),
+ 'M5': X('FlatMember'), 'M6': X('FlatEq'), 'M7': X('FlatEffects'), 'M8': X('FlatCtor'), 'M9': X('FlatMove', 'FlatEffects'),
+ 'M10': X('PolygonCtor', 'PolygonEffects'), 'M11': X('PolygonCtor'), 'M12': X('PolygonMember'), 'M13': X('PolygonCtor'),
+ 'M14': X('PolygonMove', 'PolygonEffects', 'PolygonComplete'), 'M28': X('PolygonMove', 'PolygonEffects', 'PolygonComplete'),
+ 'M15': X('PolygonEffects'), 'M16': X('PolyhedronCtor', 'PolyhedronEffects'),
+ 'M17': X('PolyhedronHelpers', 'PolyhedronCtor', 'PolyhedronMove'),      # __init__ and move both call _euler_check
+ 'M18': X('PolyhedronEffects'), 'M19': X('PolyhedronMember'), 'M20': X('PolyhedronCtor'),
+ 'M21': X('FlatMove', 'FlatEffects', 'FlatComplete'), 'M22': X('FlatMember', 'FlatEffects', 'FlatComplete'),
+ 'M23': X('PolyhedronHelpers', 'PolyhedronCtor', 'PolyhedronMove', 'PolyhedronEffects', 'PolyhedronComplete'),
+ 'M26': X('Calc'), 'M27': X('Calc'), 'M24': X(), 'M25': X(),
+}
 # (id + description, file, old, new, expected broken groups, expected changed groups (None = same as broken))
 MUTS = [
  ('M0 control: no change', L, None, None, [], []),
@@ -153,18 +172,25 @@ for name, f, old, new, exp_broken, exp_changed in MUTS:
             changed.append(g)
         if open(gen_path(g)).read() != text:
             open(gen_path(g), 'w').write(text)
-    broken = []; failed_thms = []
-    for g in GROUPS:
-        b = run(['lake', 'build', 'G3D.Proofs.' + MODULE[g]], cwd=os.path.join(VERIF, 'lean'))
-        if b.returncode != 0:
-            broken.append(g)
-            errs = re.findall(r'^error: G3D/Proofs/(\w+)\.lean:(\d+):\d+:', b.stdout + b.stderr, re.M)
-            failed_thms += sorted({thm_of(m, ln) for m, ln in errs if m == MODULE[g]}) or ['(import of generated file fails)']
+    b = run(['lake', 'build'] + ['G3D.Proofs.' + m for m in ROLE_MODULES], cwd=os.path.join(VERIF, 'lean'))
+    outp = b.stdout + b.stderr
+    errs = re.findall(r'^error: G3D/Proofs/(\w+)\.lean:(\d+):\d+:', outp, re.M)
+    failed = sorted({m for m, _ in errs if m in ROLE_MODULES} | {m for m in re.findall(r'✖ \[\d+/\d+\] (?:Building|Built) G3D\.Proofs\.(\w+)', outp) if m in ROLE_MODULES})
+    blocked = set(); grew = True
+    while grew:
+        grew = False
+        for m in ROLE_MODULES:
+            if m not in failed and m not in blocked and IMPORTS[m] & (set(failed) | blocked):
+                blocked.add(m); grew = True
+    if b.returncode != 0 and not failed:
+        failed = ['(build failed outside the role modules)']
+    failed_thms = sorted({thm_of(m, ln) for m, ln in errs if m in ROLE_MODULES})
+    broken = sorted(set(failed) | blocked)
     row = dict(mutation=name, extractor_exit=exits, stderr=msgs, changed_files=[g.capitalize() + '.lean' for g in changed],
-               broken_modules=[MODULE[g] for g in broken], failing_theorems=failed_thms)
+               failed_modules=failed, blocked_modules=sorted(blocked), failing_theorems=failed_thms)
     rows.append(row); print(json.dumps(row), flush=True)
-    if broken != exp_broken:
-        bad.append((mid, 'broken', broken, exp_broken))
+    if broken != EXPECT[mid]:
+        bad.append((mid, 'broken', broken, EXPECT[mid]))
     if changed != exp_changed:
         bad.append((mid, 'changed', changed, exp_changed))
 # restore
